@@ -341,7 +341,13 @@ func (rd *remoteDelivery) newConn(ctx context.Context, domain string) (*mxConn, 
 			if len(records) != 0 {
 				rd.Log.Error("cannot use MX", err, "remote_server", record.Host, "domain", domain)
 			}
-			lastErr = err
+			// A temporary failure of one MX (including DNSSEC/TLSA lookup
+			// errors) means the delivery should be attempted again later, even if
+			// a candidate tried after it is rejected permanently (e.g. it is
+			// not listed in the MTA-STS policy).
+			if lastErr == nil || !exterrors.IsTemporaryOrUnspec(lastErr) || exterrors.IsTemporaryOrUnspec(err) {
+				lastErr = err
+			}
 			continue
 		}
 		break
